@@ -11,6 +11,7 @@ CONSTANTS
   MaxOps = 2
   GenHist = FALSE
   F2Fixed = TRUE
+  CuGuard = FALSE
   Profile = ""
 INIT Init
 NEXT Next
